@@ -18,7 +18,7 @@ var icptSets = [][]string{
 }
 
 var nameRules = []string{"", "", "", "digit", "word", "any", "len2", "nodot", "all", "even", "\\d+", "[a-z]+", "\\w+", ".+", "[0-9]*",
-	"[a-c]+", "\\d+?", "a|ab", "(a|b)+", ".*", "[^/]+", "\\d\\d", "x?y", "[a-z]+\\d*"}
+	"[a-c]+", "\\d+?", "a|ab", "(a|b)+", ".*", "[^/]+", "\\d\\d", "x?y", "[a-z]+\\d*", "v1|v2", "a|ab", "5|77"}
 
 var paramNames = []string{"id", "name", "p", "q", "v", "path", "-id", "-x", "a", "b"}
 
@@ -96,7 +96,7 @@ var malformed = []string{"", "{}", "/{}", "/{:a}", "/{a}{b}", "/{id}/{id}", "/{i
 	"/{a:)}", "/{a:x**}", "/{a:\\}", "/:{b}", "a:{b}", "/{a}:{b}", "/{a:\\d+}{b}", "/{id:digit}{x}", "/\xff{a}", "/{\xff}", "/{a:\xff}"}
 
 var valuePool = []string{"5", "12", "abc", "a", "b", "ab", "7a", "a.html", "", "x/y", "A", "zz", "0", "x", "a-b", "1.2", "aa", "aaa",
-	"ab12", "a/b/c", "é", "\xff", "%2F", " ", "y", "xy", "-", ".", "html", "log", "77"}
+	"ab12", "a/b/c", "é", "\xff", "%2F", " ", "y", "xy", "-", ".", "html", "log", "77", "v1", "v2", "v1beta", "dev2", "577", "a5"}
 
 // instantiate replaces every {..} token of p by a value.
 func instantiate(r *rand.Rand, p string, vals []string) string {
@@ -332,6 +332,83 @@ func genRT(pr rtProfile) func(r *rand.Rand, w *W) [][]string {
 				stems = append(stems, p)
 			}
 			w.Count("literal-fanout")
+		}
+		// history shapes that need a conjunction random walks rarely produce
+		if r.Intn(100) < 30 {
+			base := pick(r, []string{"/t", "/items", "/u", "", "/api/v"})
+			addH := func(p string, ms ...string) {
+				hid++
+				var mws []string
+				if pr.use {
+					mws = newMws(1)
+				}
+				ops = append(ops, append([]string{"handle", "r", p, "h" + itoa(hid)}, append(list(mws...), list(ms...)...)...))
+				pool = append(pool, p)
+				stems = append(stems, p)
+			}
+			switch r.Intn(6) {
+			case 0: // a parameter route that is a prefix of another one, emptied by explicit method lists, then its twin
+				par := pick(r, []string{"{id}", "{id:digit}", "{id:\\d+}", "{id:[a-z]+}"})
+				if par == "{id:digit}" && len(ics) == 0 {
+					par = "{id}"
+				}
+				p := base + "/" + par + "/tags"
+				addH(p, "GET", "POST")
+				addH(p+"/"+pick(r, []string{"{tag}", "x", "{tag:\\d+}"}), "GET")
+				observe()
+				ops = append(ops, append([]string{"remove", "r", p}, list("POST")...))
+				ops = append(ops, append([]string{"remove", "r", p}, list("GET")...))
+				observe()
+				wpath, kv := witness(r, p)
+				ops = append(ops, append([]string{"serve", pick(r, []string{"GET", "POST", "OPTIONS"}), wpath, "w", p}, list(kv...)...))
+				addH(renameParams(r, p), "GET")
+				w.Count("shape-emptied-prefix-route")
+			case 1: // split of a node whose route exists, then a method added to it
+				addH(base+"/posts/author", "GET")
+				addH(base+"/posts/abc", "GET")
+				addH(base+"/posts/author", "POST")
+				if r.Intn(2) == 0 {
+					ops = append(ops, append([]string{"remove", "r", base + "/posts/abc"}, list()...))
+					addH(base+"/posts/author", "PUT")
+				}
+				w.Count("shape-split-then-add")
+			case 2: // sibling parameter branches that differ only after a capture
+				addH(base+"/{id}/{page:\\d+}", "GET")
+				addH(base+"/{id}/{action}/log", "GET")
+				addH(base+"/{uid}/alpha/extra", "GET")
+				for _, c := range []string{"alpha", "beta", "gamma", "delta", "eps"} {
+					if r.Intn(3) != 0 {
+						addH(base+"/{id}/"+c, "GET")
+					}
+				}
+				ops = append(ops, []string{"serve", "GET", base + "/5/7/log"}, []string{"serve", "GET", base + "/7/alpha/extra"}, []string{"serve", "GET", base + "/7/alpha/x"})
+				w.Count("shape-sibling-params")
+			case 3: // >= 5 literal siblings next to a parameter, under a literal node that is consumed whole
+				for _, c := range []string{"a", "b", "c", "d", "e"} {
+					addH(base+"/v/"+c+"/meta", "GET")
+				}
+				addH(base+"/v/{name}/meta", "GET")
+				addH(base+"/v/{name:[a-z]+}/m", "GET")
+				ops = append(ops, []string{"serve", "GET", base + "/v/a/x/meta"}, []string{"serve", "GET", base + "/v/b/meta"}, []string{"serve", "GET", base + "/v/a/m"})
+				w.Count("shape-index-fallback")
+			case 4: // two-level pruning: all routes below a handler-less prefix node removed one by one
+				for _, c := range []string{"a", "b", "c", "d"} {
+					addH(base+"/"+c, "GET")
+				}
+				addH(base+"/e1", "GET")
+				addH(base+"/e2", "GET")
+				addH(base+"/{name}", "GET")
+				ops = append(ops, append([]string{"remove", "r", base + "/e1"}, list()...))
+				ops = append(ops, append([]string{"remove", "r", base + "/e2"}, list()...))
+				w.Count("shape-two-level-prune")
+			default: // '-' parameters with alternations
+				addH(base+"/{-ver:v1|v2}/users", "GET")
+				addH(base+"/{kind:a|ab}/x", "GET")
+				ops = append(ops, []string{"serve", "GET", base + "/v1beta/users"}, []string{"serve", "GET", base + "/dev2/users"},
+					[]string{"serve", "GET", base + "/v2/users"}, []string{"serve", "GET", base + "/abc/x"})
+				w.Count("shape-alternation")
+			}
+			observe()
 		}
 		nMut := 1 + r.Intn(pr.maxRoutes)
 		for i := 0; i < nMut; i++ {
